@@ -143,6 +143,10 @@ type oInterp struct {
 	// panic in flight: set by panic(v) and by run-time panics, cleared by recover()
 	panicActive bool
 	panicVal    oval
+	// package-level variables of repo packages, initialised on first use (initialisers in source
+	// order, then the package's init functions)
+	globals  map[types.Object]*oval
+	initDone map[*types.Package]bool
 }
 
 type oCtl int
@@ -656,6 +660,10 @@ func (fr *oFrame) store(l ast.Expr, v oval, define bool) oCtl {
 			return fr.abort("store to unknown %s", x.Name)
 		}
 		if fr.env.lookup(o) == nil {
+			if c := fr.it.global(o); c != nil {
+				*c = v
+				return oNormal
+			}
 			return fr.abort("store to non-local %s", x.Name)
 		}
 		fr.env.set(o, v)
@@ -723,6 +731,10 @@ func oEqual(a, b oval) (eq bool, ok bool) {
 		if _, ok := b.(oNil); ok {
 			return false, true
 		}
+	case oFuncRef:
+		if _, ok := b.(oNil); ok {
+			return false, true
+		}
 	case oFunc:
 		if _, ok := b.(oNil); ok {
 			return false, true
@@ -751,7 +763,7 @@ func oEqual(a, b oval) (eq bool, ok bool) {
 		switch y := b.(type) {
 		case oSlice:
 			return y.isNil(), true
-		case oHostFunc, oFunc:
+		case oHostFunc, oFunc, oFuncRef:
 			return false, true
 		case oPtr:
 			return y.s == nil, true
@@ -821,6 +833,11 @@ func (fr *oFrame) evalMulti(e ast.Expr) []oval {
 		return []oval{oTop{"assertion"}, oTop{"?"}}
 	case *ast.CallExpr:
 		return fr.call(x)
+	case *ast.IndexExpr:
+		if m, ok := fr.eval(x.X).(oMap); ok {
+			v, present := fr.mapIndex(x, m)
+			return []oval{v, present}
+		}
 	}
 	return []oval{fr.eval(e)}
 }
@@ -860,9 +877,27 @@ func (fr *oFrame) eval(e ast.Expr) oval {
 			if c := fr.env.lookup(o); c != nil {
 				return fr.rvalue(*c)
 			}
+			if f, ok := o.(*types.Func); ok {
+				return oFuncRef{f}
+			}
+			if c := fr.it.global(o); c != nil {
+				return fr.rvalue(*c)
+			}
 		}
 		return oTop{"unknown identifier " + x.Name}
 	case *ast.SelectorExpr:
+		if id, ok := unparen(x.X).(*ast.Ident); ok {
+			if _, isPkg := fr.info.Uses[id].(*types.PkgName); isPkg {
+				o := fr.info.Uses[x.Sel]
+				if f, ok := o.(*types.Func); ok {
+					return oFuncRef{f}
+				}
+				if c := fr.it.global(o); c != nil {
+					return fr.rvalue(*c)
+				}
+				return oTop{"external " + src(x)}
+			}
+		}
 		if s := fr.structRef(x.X); s != nil {
 			if v, ok := s.fields[x.Sel.Name]; ok {
 				return fr.rvalue(v)
@@ -980,6 +1015,9 @@ func (fr *oFrame) eval(e ast.Expr) oval {
 		t := fr.info.TypeOf(x)
 		if _, isSlice := t.Underlying().(*types.Slice); isSlice {
 			return fr.sliceLit(x, t)
+		}
+		if _, isMap := t.Underlying().(*types.Map); isMap {
+			return fr.mapLit(x, t)
 		}
 		st, ok := t.Underlying().(*types.Struct)
 		if !ok {
@@ -1106,12 +1144,62 @@ func (fr *oFrame) call(call *ast.CallExpr) []oval {
 	}
 	f := callee(fr.info, call)
 	if f == nil {
-		if hf, ok := fr.eval(call.Fun).(oHostFunc); ok {
+		fv := fr.eval(call.Fun)
+		if hf, ok := fv.(oHostFunc); ok {
 			var args []oval
 			for _, a := range call.Args {
 				args = append(args, fr.eval(a))
 			}
 			return hf.fn(args)
+		}
+		if fref, ok := fv.(oFuncRef); ok && fr.it.p.Decl(fref.f) != nil {
+			sig := fref.f.Type().(*types.Signature)
+			var args []oval
+			for i, a := range call.Args {
+				v := fr.eval(a)
+				if i < sig.Params().Len() {
+					if _, isIface := sig.Params().At(i).Type().Underlying().(*types.Interface); isIface {
+						v = fr.toIface(v)
+					}
+				}
+				args = append(args, v)
+			}
+			res, why := fr.it.Call(fref.f, nil, args, fr.depth+1)
+			if why != "" {
+				if strings.HasPrefix(why, "panic:") && fr.why == "" {
+					fr.why = why
+				}
+				out := make([]oval, sig.Results().Len())
+				for i := range out {
+					out[i] = oTop{why}
+				}
+				if len(out) == 0 {
+					return nil
+				}
+				return out
+			}
+			for i := range res {
+				if i < sig.Results().Len() {
+					if _, isIface := sig.Results().At(i).Type().Underlying().(*types.Interface); isIface {
+						res[i] = fr.toIface(res[i])
+					}
+				}
+			}
+			return res
+		}
+		if fl, ok := fv.(oFunc); ok {
+			var args []oval
+			for _, a := range call.Args {
+				args = append(args, fr.rvalue(fr.eval(a)))
+			}
+			res, why := fr.it.CallFunc(fl, args)
+			if why != "" {
+				if strings.HasPrefix(why, "panic:") && fr.why == "" {
+					fr.why = why
+				}
+				return one(oTop{why})
+			}
+			return res
 		}
 		return one(oTop{"dynamic call " + src(call.Fun)})
 	}
@@ -1615,4 +1703,93 @@ func isStringT(t types.Type) bool {
 	}
 	b, ok := t.Underlying().(*types.Basic)
 	return ok && b.Info()&types.IsString != 0
+}
+
+// oFuncRef is a package-level function used as a value.
+type oFuncRef struct{ f *types.Func }
+
+// global returns the cell of a package-level variable of a repo package, initialising the
+// package's variables (and running its init functions) on first use.
+func (it *oInterp) global(o types.Object) *oval {
+	v, ok := o.(*types.Var)
+	if !ok || v.Pkg() == nil || v.Parent() != v.Pkg().Scope() {
+		return nil
+	}
+	if it.globals == nil {
+		it.globals, it.initDone = map[types.Object]*oval{}, map[*types.Package]bool{}
+	}
+	if !it.initDone[v.Pkg()] {
+		it.initDone[v.Pkg()] = true
+		it.initPackage(v.Pkg())
+	}
+	return it.globals[o]
+}
+
+func (it *oInterp) initPackage(tp *types.Package) {
+	var pk *pkgT
+	for _, cand := range it.p.Repo {
+		if cand.Types == tp {
+			pk = cand
+		}
+	}
+	if pk == nil {
+		return
+	}
+	info := pk.TypesInfo
+	fr := &oFrame{it: it, info: info, env: &oEnv{vars: map[types.Object]*oval{}}, depth: 1}
+	// declare all first (zero), then evaluate initialisers in source order, twice so that simple
+	// forward references settle
+	type spec struct {
+		names []*ast.Ident
+		vals  []ast.Expr
+	}
+	var specs []spec
+	for _, f := range pk.Syntax {
+		for _, d := range f.Decls {
+			gd, ok := d.(*ast.GenDecl)
+			if !ok || gd.Tok != token.VAR {
+				continue
+			}
+			for _, sp := range gd.Specs {
+				vs := sp.(*ast.ValueSpec)
+				specs = append(specs, spec{vs.Names, vs.Values})
+				for _, nm := range vs.Names {
+					if o := info.Defs[nm]; o != nil {
+						z := it.zero(o.Type())
+						if _, isMap := o.Type().Underlying().(*types.Map); isMap {
+							z = oNil{}
+						}
+						it.globals[o] = &z
+					}
+				}
+			}
+		}
+	}
+	for pass := 0; pass < 2; pass++ {
+		for _, sp := range specs {
+			if len(sp.vals) != len(sp.names) {
+				continue
+			}
+			for i, nm := range sp.names {
+				if o := info.Defs[nm]; o != nil {
+					fr.why = ""
+					v := fr.eval(sp.vals[i])
+					*it.globals[o] = v
+				}
+			}
+		}
+	}
+	saved := it.panicActive
+	for _, f := range pk.Syntax {
+		for _, d := range f.Decls {
+			fd, ok := d.(*ast.FuncDecl)
+			if !ok || fd.Recv != nil || fd.Name.Name != "init" || fd.Body == nil {
+				continue
+			}
+			sub := &oFrame{it: it, info: info, env: &oEnv{vars: map[types.Object]*oval{}}, depth: 1}
+			sub.block(fd.Body.List)
+			sub.runDefers()
+		}
+	}
+	it.panicActive = saved
 }
